@@ -20,7 +20,7 @@ F_Ns == 1..9
 F_Vals(n, card) == CASE card = 1 -> V13(n) \cup VExtra(n)
                      [] card = 2 -> V13(n) \cup VExtra(n)
                      [] card = 3 -> V13(n)
-                     [] card = 4 -> V7(n)
+                     [] card = 4 -> V13(n)
                      [] OTHER -> V5(n)
 \* behaviour generation (replayed on the real code)
 G_Ns == 1..6
